@@ -69,6 +69,7 @@ func (m *Mutex) CanLock() bool {
 	defer m.mu.Unlock()
 	return m.next == m.serving
 }
+
 //go:norace
 func (m *Mutex) CanRLock() bool { return m.CanLock() }
 
